@@ -901,7 +901,8 @@ class PositionArray(PosBase):
                     pos_args.update({a: memo[fieldname]})
                 else:
                     # the other field has not been read yet
-                    attr_group = h5_group.parent[fieldname]
+                    # fieldname is the dotted name of a field from the top of the file (it may be in a collection)
+                    attr_group = h5_group.file[fieldname.replace(".", "/")]
                     cls_module, _, cls_name = attr_group.attrs["__class__"].rpartition(".")
                     attr_cls = getattr(sys.modules[cls_module], cls_name)
                     arg = attr_cls._read(attr_group, memo)
@@ -1251,7 +1252,8 @@ class PositionDeltaArray(PosBase):
                     delta_args.update({a: memo[fieldname]})
                 else:
                     # the other field has not been read yet
-                    attr_group = h5_group.parent[fieldname]
+                    # fieldname is the dotted name of a field from the top of the file (it may be in a collection)
+                    attr_group = h5_group.file[fieldname.replace(".", "/")]
                     cls_module, _, cls_name = attr_group.attrs["__class__"].rpartition(".")
                     attr_cls = getattr(sys.modules[cls_module], cls_name)
                     arg = attr_cls._read(attr_group, memo)
@@ -1634,7 +1636,8 @@ class PosVelArray(PositionArray):
                     pos_args.update({a: memo[fieldname]})
                 else:
                     # the other field has not been read yet
-                    attr_group = h5_group.parent[fieldname]
+                    # fieldname is the dotted name of a field from the top of the file (it may be in a collection)
+                    attr_group = h5_group.file[fieldname.replace(".", "/")]
                     cls_module, _, cls_name = attr_group.attrs["__class__"].rpartition(".")
                     attr_cls = getattr(sys.modules[cls_module], cls_name)
                     arg = attr_cls._read(attr_group, memo)
@@ -1772,7 +1775,8 @@ class PosVelDeltaArray(PositionDeltaArray):
                     delta_args.update({a: memo[fieldname]})
                 else:
                     # the other field has not been read yet
-                    attr_group = h5_group.parent[fieldname]
+                    # fieldname is the dotted name of a field from the top of the file (it may be in a collection)
+                    attr_group = h5_group.file[fieldname.replace(".", "/")]
                     cls_module, _, cls_name = attr_group.attrs["__class__"].rpartition(".")
                     attr_cls = getattr(sys.modules[cls_module], cls_name)
                     arg = attr_cls._read(attr_group, memo)
